@@ -154,10 +154,18 @@ def gen(rng, kind, tier):
             frames.append(_emulsion_field(rng, dim, k, 0.02))
         for fr in frames[1:]:
             fr["grid"] = frames[0]["grid"]
-        refine = bool(rng.random() < 0.5)
+        refine = bool(rng.random() < 0.6)
         opts = {"refine": refine}
-        if refine and rng.random() < 0.5:
+        r = rng.random()
+        if refine and r < 0.35:
             opts["refine_args"] = {"least_squares_params": {"max_nfev": 25}}
+        elif refine and r < 0.7:
+            # automatic (and possibly fitted) intensity levels: every frame has its own extrema
+            opts["refine_args"] = {"vmin": None, "vmax": None}
+            if rng.random() < 0.5:
+                opts["refine_args"]["adjust_values"] = True
+            for fr in frames:
+                fr["levels"] = [float(rng.uniform(-0.2, 0.2)), float(rng.uniform(0.7, 1.4))]
         return {"frames": frames, "opts": opts, "schedule": sched, "num_processes": nproc, "sched_seed": int(rng.integers(1 << 30))}
     if kind == "repeat":
         dim = int(rng.choice([1, 2, 2, 3])) if False else int(rng.choice([2, 2, 3]))
@@ -176,6 +184,8 @@ def make_field(fd):
     grid = geom.make_grid(fd["grid"])
     em = droplets.Emulsion([make_droplet(d) for d in fd["droplets"]])
     data = np.asarray(em.get_phasefield(grid).data, float)
+    if fd.get("levels"):
+        data = fd["levels"][0] + (fd["levels"][1] - fd["levels"][0]) * data
     if fd["noise"]:
         data = data + np.random.default_rng(fd["seed"]).normal(0, fd["noise"], data.shape)
     return ScalarField(grid, data)
@@ -288,6 +298,24 @@ def run_pool_case(case, rec, which):
     rec.check(s_par == s_ser, "parallel-equals-serial",
               f"result with num_processes={case['num_processes']} differs from the serial result "
               f"(observed completion order {perm}); {label}")
+    if which == "refine" and len(cands) >= 1 and case["sched_seed"] % 2 == 0:
+        # refine_droplets accepts any iterable of candidates: a one-shot generator must give the same
+        # droplets as a list, serially and with worker processes
+        _sched["log"] = None
+        kw2 = dict(kw.get("refine_args") or {})
+        kw2 = json.loads(json.dumps(kw2))
+        lst = common.monitored(rec, "refine_droplets:list-serial", ia.refine_droplets, field, [c.copy() for c in cands],
+                               num_processes=1, **json.loads(json.dumps(kw2)))
+        gen_par = common.monitored(rec, "refine_droplets:generator-parallel", ia.refine_droplets, field,
+                                   (c.copy() for c in cands), num_processes=case["num_processes"], **json.loads(json.dumps(kw2)))
+        gen_ser = common.monitored(rec, "refine_droplets:generator-serial", ia.refine_droplets, field,
+                                   (c.copy() for c in cands), num_processes=1, **json.loads(json.dumps(kw2)))
+        if rec.check(lst.ok and gen_par.ok and gen_ser.ok, "no-exception",
+                     f"refine_droplets raised {lst.exc!r} / {gen_par.exc!r} / {gen_ser.exc!r}; {label}"):
+            a_, b_, c_ = (snap(droplets.Emulsion(x.result, copy=False)) for x in (lst, gen_par, gen_ser))
+            rec.check(a_ == b_ == c_, "parallel-equals-serial",
+                      f"refine_droplets: candidates given as a generator ({len(gen_par.result)} droplets with "
+                      f"num_processes={case['num_processes']}, {len(gen_ser.result)} serially) vs list ({len(lst.result)}); {label}")
     rec.evaluated(nontrivial=bool(perm) and not identity)
     rec.count(f"{which}:nproc={case['num_processes']}|{case['schedule']}")
     if perm and not identity:
